@@ -32,10 +32,11 @@ structure LiveObs where
   code : Addr → Code
   stor : Addr → Nat → Nat
   logs : List Log
+  stake : Addr → Nat
 
 def Obs.toLive (o : Obs) : LiveObs :=
   { live := fun a => o.exist a = true ∧ o.nonEmpty a, nonce := o.nonce, bal := o.bal, code := o.code,
-    stor := o.stor, logs := o.logs }
+    stor := o.stor, logs := o.logs, stake := o.stake }
 
 def liveObs (w : World) : LiveObs := (obs w).toLive
 
@@ -57,6 +58,7 @@ def Frame.plain : Frame → Bool
   | .stake .. => false
   | .unstake .. => false
   | .unstakeall .. => false
+  | .stakenum .. => false
 
 /-- world at the snapshot point of `create` (after the creator's nonce bump and the access-list
     insertion, which Ethereum keeps as well); the unchanged world when a pre-check refuses -/
